@@ -514,6 +514,39 @@ pub fn gen_itera(c: &mut Ctx) {
     c.leave(saved);
 }
 
+/// the provided methods of `Iterator` on `Cube::all` / `Ecube::all` (seed C13-k)
+fn gen_alla(c: &mut Ctx, what: &str, nmax: usize, total: &dyn Fn(usize) -> usize) {
+    let saved = c.enter(&format!("alla-{}", what));
+    for n in 0..=nmax {
+        let tot = total(n);
+        let mut ab: Vec<(usize, usize)> = vec![(0, 0), (0, 1), (1, 0), (1, 1), (1, 2), (2, 1), (3, 1), (3, 3), (0, 7), (5, 4)];
+        for d in [tot.saturating_sub(2), tot - 1, tot, tot + 1, tot + 5] {
+            ab.push((0, d));
+            ab.push((1, d.saturating_sub(1)));
+            ab.push((2, d.saturating_sub(2)));
+        }
+        ab.push((tot, 0));
+        ab.push((c.rng.below(tot + 1), c.rng.below(tot + 1)));
+        for (a, b) in &ab {
+            p!(c, "{} alla {} {} nth {}", what, n, a, b);
+            p!(c, "{} alla {} {} skip {}", what, n, a, b);
+        }
+        for st in [1usize, 2, 3, 4, 5, tot - 1, tot, tot + 1] {
+            if st >= 1 {
+                for a in 0..3 {
+                    p!(c, "{} alla {} {} stepby {}", what, n, a, st);
+                }
+            }
+        }
+        for a in [0usize, 1, 2, tot / 2, tot - 1, tot, tot + 1] {
+            for kind in ["count", "last", "max", "min", "hint"] {
+                p!(c, "{} alla {} {} {} 0", what, n, a, kind);
+            }
+        }
+    }
+    c.leave(saved);
+}
+
 fn hexstr_of(t: &Tab) -> String {
     let width = if t.n >= 6 { 16 } else if t.n <= 2 { 1 } else { 1 << (t.n - 2) };
     t.w.iter().rev().map(|w| format!("{:0width$x}", w, width = width)).collect()
@@ -1178,6 +1211,41 @@ fn hist_token(r: &mut Rng, n: usize, allow_canon: bool) -> String {
 
 pub fn gen_c02(c: &mut Ctx) {
     gen_itera(c);
+    // tables that come out of the two-level forms (seed C02-k: a word-level tabulation of Soes that
+    // writes a full word for the constant-one term at n <= 5)
+    {
+        let saved = c.enter("C02-forms");
+        for n in 0..=8usize {
+            for what in ["sop", "esop"] {
+                p!(c, "{} tolut {} -", what, n);
+                p!(c, "{} tolut {} 0/0", what, n);
+                p!(c, "{} tolut {} 0/0,0/0", what, n);
+                for _ in 0..3 {
+                    let a = rand_cube_list(&mut c.rng, n, 4);
+                    p!(c, "{} tolut {} {}", what, n, scl(&a));
+                    let mut b = a.clone();
+                    b.push((0, 0));
+                    p!(c, "{} tolut {} {}", what, n, scl(&b));
+                }
+            }
+            p!(c, "soes tolut {} -", n);
+            p!(c, "soes tolut {} 0/1", n);
+            p!(c, "soes tolut {} 0/0", n);
+            p!(c, "soes tolut {} 0/0,0/1", n);
+            for _ in 0..4 {
+                let k = 1 + c.rng.below(3);
+                let mut l: Vec<String> = Vec::new();
+                for _ in 0..k {
+                    let v = if n == 0 { 0 } else { c.rng.next() as u32 & ((1u32 << n) - 1) };
+                    l.push(format!("{:x}/{}", v, c.rng.below(2)));
+                }
+                p!(c, "soes tolut {} {}", n, l.join(","));
+                l.push("0/1".to_string());
+                p!(c, "soes tolut {} {}", n, l.join(","));
+            }
+        }
+        c.leave(saved);
+    }
     // values of different sizes never compare equal, whatever their blocks are
     for n1 in 0..=7usize {
         for n2 in 0..=7usize {
@@ -1300,6 +1368,9 @@ pub fn gen_c12(c: &mut Ctx) {
     }
     for n in 0..=(if c.thorough { 6 } else { 5 }) {
         p!(c, "cube all {}", n);
+        if n == 0 {
+            gen_alla(c, "cube", 4, &|n| 3usize.pow(n as u32));
+        }
     }
     // implies_lut: all cubes x functions for n <= 2 (quick), sampled for 3, 4
     for n in 0..=4usize {
@@ -1447,6 +1518,9 @@ pub fn gen_c13(c: &mut Ctx) {
             }
         }
         p!(c, "ecube all {}", n);
+        if n == 0 {
+            gen_alla(c, "ecube", 5, &|n| 2usize << n);
+        }
     }
     let cnt = if c.thorough { 20000 } else { 2000 };
     for _ in 0..cnt {
@@ -2028,6 +2102,11 @@ fn resize_line(l: &str, a: usize, b: usize) -> Option<String> {
     let mut changed = false;
     let has_tab = t.iter().skip(1).any(|s| s.split_once(':').map_or(false, |(x, _)| x.parse::<usize>().is_ok()));
     for (i, s) in t.iter().enumerate() {
+        if has_tab && t[0] == "bdd" && i == 2 && s.parse::<usize>().ok() == Some(a) {
+            // `bdd <ty> <n> <tables>`: the size is written twice
+            out.push(b.to_string());
+            continue;
+        }
         if has_tab {
             if let Some((x, w)) = s.split_once(':') {
                 if x.parse::<usize>().ok() == Some(a) {
@@ -2124,9 +2203,12 @@ fn add_cross_sequences(c: &mut Ctx) {
         }
         // the SAME arguments at another size (seeds C05-i, C09-k: results remembered under a key
         // that leaves the size out): the size token replaced, single-word tables masked
-        for _ in 0..2 {
-            let a = ns[c.rng.below(ns.len())];
-            let b = ns[c.rng.below(ns.len())];
+        let small: Vec<usize> = ns.iter().cloned().filter(|x| *x <= 6).collect();
+        for k in 0..6 {
+            // half of the draws among the sizes that fit one word (tables can be carried over)
+            let pool: &Vec<usize> = if k % 2 == 0 && small.len() >= 2 { &small } else { &ns };
+            let a = pool[c.rng.below(pool.len())];
+            let b = pool[c.rng.below(pool.len())];
             if a == b {
                 continue;
             }
@@ -2138,7 +2220,7 @@ fn add_cross_sequences(c: &mut Ctx) {
         }
     }
     // a bounded number per property, spread over the families
-    let cap = if c.thorough { 1600 } else { 400 };
+    let cap = if c.thorough { 2400 } else { 600 };
     if seqs.len() > cap {
         let step = seqs.len() as f64 / cap as f64;
         let mut kept = Vec::new();
